@@ -128,25 +128,45 @@ func (c *Ctx) readerLayout(f *ssa.Function, typ string) (layout, map[string]stri
 			}
 		}
 		if any {
-			cond[fld] = vbitEdge(st)
+			cond[fld] = c.vbitEdge(st)
 		}
 	})
+	// fields may be filled in by a helper that receives the same bytes (offset 0)
+	for _, ci := range flow.CallInstrs(f) {
+		h := flow.StaticCallee(ci)
+		if h == nil || h == f || h.Blocks == nil || !c.P.IsLibrary(h) || pkgOf(h) != pkgOf(f) || readerDepth > 2 {
+			continue
+		}
+		hb := byteParam(h)
+		if hb == nil {
+			continue
+		}
+		idx := paramIndex(h, hb)
+		if idx >= len(ci.Common().Args) || !isBase(ci.Common().Args[idx]) {
+			continue
+		}
+		readerDepth++
+		hl, hc, hp := c.readerLayout(h, typ)
+		readerDepth--
+		ct := c.vbitEdge(ci)
+		for off, v := range hl {
+			if prev, dup := l[off]; dup && prev != v {
+				problems = append(problems, fmt.Sprintf("byte %d is read into both %s and %s", off, prev, v))
+			}
+			l[off] = v
+		}
+		for fld, t := range hc {
+			if t == "" {
+				t = ct
+			}
+			cond[fld] = t
+		}
+		problems = append(problems, hp...)
+	}
 	return l, cond, problems
 }
 
-// vbitEdge: "V" / "noV" / "" according to the Flags&Vbit guard dominating in.
-func vbitEdge(in ssa.Instruction) string {
-	for _, g := range flow.Guards(in) {
-		cnd, neg := flow.Cond(g.If.Cond, g.Taken)
-		if isVbitTest(cnd) {
-			if neg {
-				return "noV"
-			}
-			return "V"
-		}
-	}
-	return ""
-}
+var readerDepth int
 
 // writerLayout: offset -> field:lane for the bytes f stores into its []byte parameter from the
 // fields of its receiver.
